@@ -2,5 +2,6 @@ SPECIFICATION Spec
 CONSTANTS
   NCalls = 3
   OnErrorBody = "skip"
+  OnTimeout = "keep"
 PROPERTY Delivered
 CHECK_DEADLOCK FALSE
